@@ -130,7 +130,11 @@ fn synth_local(zone: &str, l: &Value) -> Value {
     use temporal_rs::tzdb::LocalTimeRecordResult as R;
     // FsTzdbProvider::get_named_tz_epoch_nanoseconds, line by line
     run(|| with_synth(zone, |z| {
-        let epoch_nanos = arg_iso_dt(l)?.as_nanoseconds()?.as_i128();
+        // utc_epoch_nanoseconds_unchecked: the UTC reading of the wall-clock value, not range-checked as an instant
+        let dt = arg_iso_dt(l)?;
+        let epoch_nanos = crate::gen::days_from_civil(dt.date.year as i64, dt.date.month as i64, dt.date.day as i64) as i128 * 86_400_000_000_000
+            + ((dt.time.hour as i128 * 60 + dt.time.minute as i128) * 60 + dt.time.second as i128) * 1_000_000_000
+            + (dt.time.millisecond as i128 * 1000 + dt.time.microsecond as i128) * 1000 + dt.time.nanosecond as i128;
         let seconds = epoch_nanos.div_euclid(1_000_000_000) as i64;
         let sub = |off: i64| EpochNanoseconds::try_from(epoch_nanos - off as i128 * 1_000_000_000);
         Ok(match z.v2_estimate_tz_pair(&tzif::data::time::Seconds(seconds))? {
